@@ -1,6 +1,7 @@
 """C10 - look-ups by platform log id, BMC id, entry id and SRC return exactly the matches (E1: directory x query)."""
 import itertools
 import json
+from mc import strictjson
 import os
 import tempfile
 
@@ -84,7 +85,7 @@ def build(d, entries=None):
 
 
 def list_keys(stdout):
-    v = json.loads(stdout)
+    v = strictjson.loads(stdout)
     if not isinstance(v, dict):
         raise ValueError('not a JSON object')
     return sorted(int(k, 16) for k in v), v
@@ -188,7 +189,7 @@ def eval_case(case, d=None):
                 bad('not-found', 'expected "PEL not found", got %r' % text[:80])
         else:
             try:
-                doc = json.loads(text)
+                doc = strictjson.loads(text)
                 got = int(doc['Private Header']['Entry Id'], 16)
             except Exception as e:
                 bad('no-document', 'expected the document of entry %s, stdout %r' % (['%08X' % c for c in cands], text[:80]))
